@@ -300,6 +300,16 @@ impl<Sink: TokenSink> XmlTokenizer<Sink> {
     // NB: this doesn't do input stream preprocessing or set the current input
     // character.
     fn eat(&self, input: &BufferQueue, pat: &str) -> Option<bool> {
+        if self.ignore_lf.get() {
+            // Only forget about a preceding CR once we have seen what follows it.
+            if let Some(c) = self.peek(input) {
+                self.ignore_lf.set(false);
+                if c == '\n' {
+                    self.discard_char(input);
+                }
+            }
+        }
+
         input.push_front(replace(&mut *self.temp_buf.borrow_mut(), StrTendril::new()));
         match input.eat(pat, u8::eq_ignore_ascii_case) {
             None if self.at_eof.get() => Some(false),
